@@ -320,10 +320,15 @@ def run_case(case):
         ref.write_symfs(fs, '/work/plt')
         obl = Obl(ctx)
         with patch.Patched(mods, fs), common.quiet():
-            pck = PlotfileCooker('plt')
             lv = nlev - 1
             b = len(ref.boxes[lv]) - 1
-            got = pck[len(ref.fields) - 1][lv][b]
+            try:
+                pck = PlotfileCooker('plt')
+                got = pck[len(ref.fields) - 1][lv][b]
+            except Exception as e:
+                # the twin cannot meet its (perturbed) specification either way; the main sweep makes the same read and reports it
+                obl.fail('canary: the read raised %s' % type(e).__name__)
+                return obl
             exp = ref.data[lv][b][..., len(ref.fields) - 1].copy()
             flat = exp.reshape(-1)
             if flat.size >= 2:
@@ -378,6 +383,11 @@ def cases():
     for j, mm in enumerate([x for x in families.curated_meshes() if x.name in ('3d-2lev-mixed', '2d-2lev')]):
         out.append({'label': '%s/lev-prefix' % mm.name, 'mesh': mm, 'fields': ['density', 'temp'] if 'c05' in __name__ else families.FIELD_SETS[1 + j], 'layout': families.scatter_layouts(mm, rnd, 2), 'geom': j,
                     'ref_extra': j, 'level_prefix': ['Lev_', 'amr_'][j]})
+    # a repeated name next to a field that is literally called <name>_2, listed before the repeat (the reader's key for the repeat must
+    # dodge it; a literal <name>_2 listed after the repeat is ambiguous under the reader's naming convention and outside)
+    for j, (mname, fl) in enumerate([('3d-2box-x', ['u', 'u_2', 'u']), ('2d-2lev', ['u_2', 'u', 'u', 'w'])]):
+        mm = [x for x in families.curated_meshes() if x.name == mname][0]
+        out.append({'label': '%s/suffix-names%d' % (mname, j), 'mesh': mm, 'fields': fl, 'layout': families.scatter_layouts(mm, rnd, 2), 'geom': j})
     # eleven levels: a level number with two digits
     dm = families.deep_mesh(11, 2)
     out.append({'label': dm.name, 'mesh': dm, 'fields': fsets[1], 'layout': families.scatter_layouts(dm, rnd, 1), 'geom': 0})
